@@ -82,6 +82,8 @@ def run(tier, seed, replay=None):
                     for stage in ("generated", "erased", "overwritten"):
                         if stage != "generated":
                             cls = TypeErasure if stage == "erased" else TypeOverwriting
+                            # what --replay does: load the saved file, transform the loaded object ...
+                            b = U.load_program(prev_file)
                             res = []
                             for prog_ in (a, b):
                                 U.random.r.seed(sd + 17)
@@ -91,8 +93,8 @@ def run(tier, seed, replay=None):
                             (a, ta, ea), (b, tb, eb) = res
                             if (ta, ea) != (tb, eb):
                                 text_diff.append((lang, sd, stage, "is_transformed / error_injected differ: %r vs %r" % ((ta, ea), (tb, eb))))
-                            # loading the file saved at the previous stage once more must give the program saved then, although
-                            # the object loaded from it first has been mutated since (what --replay with several iterations does)
+                            # ... and loading the same file once more, with no other load in between, must give the program saved
+                            # then, although the object loaded from it first has been mutated (--replay with several iterations)
                             if prev_tree is not None:
                                 again = U.load_program(prev_file)
                                 sx = ir2coq.Ser(L, again)
